@@ -8,6 +8,9 @@
       Apply the patch to /repo, run ./check <ID> for each id, undo the patch. Prints the verdicts.
   tools/seed_eval.py keep <dir> <seeded-id> <property> "<what it needs>"
       Copy into /verif/seeded/<seeded-id>/ with meta.json.
+  tools/seed_eval.py redetect [<seeded-id>...]
+      For every kept defect (or the named ones): apply, run the check of the property it breaks, undo; record in
+      seeded/REDETECT.json whether it is still reported and by what (run after generator or monitor changes).
 """
 import json
 import os
@@ -122,8 +125,30 @@ def keep(d, sid, prop, needs, extra=None):
     json.dump(meta, open(os.path.join(dst, "meta.json"), "w"), indent=1)
 
 
+def redetect(ids):
+    base = "/verif/seeded"
+    ids = ids or sorted(d for d in os.listdir(base) if os.path.isdir(os.path.join(base, d)))
+    path = os.path.join(base, "REDETECT.json")
+    res = json.load(open(path)) if os.path.exists(path) else {}
+    head = subprocess.run(["git", "-C", "/verif", "rev-parse", "--short", "HEAD"], capture_output=True, text=True).stdout.strip()
+    for sid in ids:
+        d = os.path.join(base, sid)
+        prop = json.load(open(os.path.join(d, "meta.json")))["breaks_property"]
+        r = detect(d, [prop])
+        v = r.get(prop, {}).get("verdicts", []) if isinstance(r.get(prop), dict) else []
+        conc = [x for x in v if x.get("line", "").startswith("VIOLATION") and "no-failing-input-found" not in x["line"]]
+        res[sid] = {"property": prop, "verif_commit": head, "reported": any(x.get("line", "").startswith("VIOLATION") for x in v),
+                    "concrete_input": bool(conc), "by": [f"{x.get('kind')}:{x.get('clause')}" for x in (conc or v)][:3],
+                    "error": r.get("error")}
+        print(sid, res[sid], flush=True)
+        json.dump(res, open(path, "w"), indent=1, sort_keys=True)
+
+
 if __name__ == "__main__":
     cmd = sys.argv[1]
+    if cmd == "redetect":
+        redetect(sys.argv[2:])
+        sys.exit(0)
     if cmd == "confirm":
         print(json.dumps(confirm(sys.argv[2]), indent=1))
     elif cmd == "detect":
